@@ -295,10 +295,17 @@ def run_case(case):
             b0 = p.buffer
             out['pending_at_login'] = b0.decode('latin-1') if isinstance(b0, bytes) else b0
             p.prompt_reads = []
+            todo = []
             for c in case.get('commands', []):
+                if isinstance(c, list):           # ['pair', c1, c2]: both lines typed ahead, then two prompt() calls
+                    todo.append((c[1], c[1] + '\n' + c[2])); todo.append((c[2], None))
+                else:
+                    todo.append((c, c))
+            for c, tosend in todo:
                 rec = dict(cmd=c)
                 try:
-                    p.sendline(c)
+                    if tosend is not None:
+                        p.sendline(tosend)
                     ok = p.prompt(timeout=case.get('prompt_timeout', 5))
                     rec['ok'] = ok
                     b = p.before
@@ -472,6 +479,8 @@ def build(items, shell):
 
 CORPUS = [
     dict(items=['hostkey', 'password', 'plainbanner'], shell=['shell', 'sh', 'alice@host:~$ ', {}], opts=dict(sync=True, reset=True), commands=['echo hi', 'echo two words', 'big 5000']),
+    # two commands typed ahead: both answers (and both prompts) can arrive in one read; each prompt() returns its own output
+    dict(items=['password'], shell=['shell', 'sh', '$ ', {}], opts=dict(sync=True, reset=True), commands=[['pair', 'echo one', 'big 600'], 'echo after'], chunks=[]),
     dict(items=['password'], shell=['shell', 'csh', 'host% # ', {}], opts=dict(sync=True, reset=True), commands=['echo csh']),
     dict(items=['password'], shell=['shell', 'zsh', 'host# ', {'root': True}], opts=dict(sync=True, reset=True), commands=['echo z']),
     dict(items=['password', 'denied', 'password'], shell=None, opts=dict(sync=True, reset=True)),
@@ -525,7 +534,8 @@ def rand_case(rng):
             items.append(rng.choice(['silence', 'exit']))
     opts = dict(sync=rng.random() < 0.7, reset=rng.random() < 0.7, quiet=rng.random() < 0.7, port=rng.choice([None, None, 2222]),
                 local=rng.random() < 0.85)
-    cmds = [rng.choice(['echo a', 'echo hello world', 'echo $x #y', 'big 300', 'big 5000', 'echo [PEXPECT', 'echo ']) for _ in range(rng.randrange(0, 4))]
+    cmds = [rng.choice(['echo a', 'echo hello world', 'echo $x #y', 'big 300', 'big 5000', 'echo [PEXPECT', 'echo ',
+                        ['pair', 'echo one', 'big 600'], ['pair', 'big 250', 'echo z']]) for _ in range(rng.randrange(0, 4))]
     return finish_case(dict(items=items, shell=shell, opts=opts, commands=cmds, encoding=rng.choice([None, None, 'utf-8'])), rng)
 
 
